@@ -9,9 +9,15 @@ VERIF = os.path.dirname(os.path.dirname(os.path.abspath(__file__)))
 CHECKS = {
     "C01": (
         "exception-escape analysis (raising-construct census, handler class coverage, abstract-interpreter bounds for indices/arity/divisors/struct offsets/byte ranges, regex language of conversion arguments, reviewed exemptions with re-checked conditions, propagation over the call graph) + termination audit (ranking templates for every while/for/recursion, stack-drain certificate from the span bounds)",
-        "Decides that no exception class can propagate out of scan / scan_node / flatten / iteration / string_summary / make_label / tree_to_json given the declared summaries of library functions, and that every loop and recursion cycle has a ranking argument. Partial: third-party code beyond the declared table, xortool's numeric core, RecursionError / MemoryError and regex running time are assumed, not decided.",
-        "Trusted: EXTERNAL_RAISES table, pefile raising only PEFormatError, xortool arithmetic, reviewed exemptions (each listed with its re-checked condition in the evidence).",
+        "Decides that no exception class can propagate out of scan / scan_node / flatten / iteration / string_summary / make_label / tree_to_json given the declared summaries of library functions, and that every loop and recursion cycle has a ranking argument. Also decides whether the recursion depth of the read-only views is bounded by the depth budget (it is not: three recorded known findings, RecursionError on ~1000 nested contexts). Partial: third-party code beyond the declared table, xortool's numeric core, MemoryError and regex running time are assumed, not decided.",
+        "Trusted: EXTERNAL_RAISES table, pefile raising only PEFormatError, xortool arithmetic, reviewed exemptions (each listed with its re-checked condition in the evidence). Three recorded known findings (recursive views vs unbounded context nesting).",
         "DESIGN.md 2.3, 2.5, 3/C01",
+    ),
+    "C02": (
+        "regular-language abstraction of conversion arguments (group language pushed through split / strip / slice / case map / constant replace as automaton constructions, refined by dominating startswith tests) contained in the grammar of int(text, base) / unhexlify; affine frame analysis of scan_node's decoded arm; linear form of the recursion depth; provenance terms of layer hits",
+        "Structural clauses only - the round-trip equality itself (successive plaintexts of an arbitrary encoder stack at any offset) is a relation between runtime values and is NOT decided. Decided, each a necessary condition: (R1) no text a layer decoder's own pattern admits can make its int()/unhexlify conversion raise, so no admitted layer is silently dropped; (R2) decoded hits are re-scanned, on the hit itself, at exactly depth-1, and no hit is lost or attached twice; (R3) a layer hit covers group 0 of the match its value comes from; (R4) layer hits carry a constant label or type. Exactness of each decoder's value, re-basing and flatten are decided under C04-C08, C13-C16, C19 and are not repeated here.",
+        "Trusted: Python's integer-literal grammar per base, binascii.unhexlify's domain, the regex group-language construction. Legitimate out-of-domain rejections (invalid base64 padding, byte values above 255, unencodable code points) are not treated as drops.",
+        "DESIGN.md 3/C02, 12",
     ),
     "C03": (
         "abstract interpretation of every decoder over a linear-form/term domain with Fourier-Motzkin entailment (span bounds on every path), span contracts for many-path helpers, affine frame analysis of scan_node (return-the-root, re-basing in bounds), attach-site pairing census, constructor binding of the root",
@@ -124,7 +130,6 @@ CHECKS = {
 }
 
 NOT_APPLICABLE = {
-    "C02": "Value-level round-trip equality between composed encoders and decoders; no static abstract domain in reach relates decoded bytes to input bytes. Its structural clauses are decided under C03/C07/C08/C13-C15/C19 (DESIGN.md 3/C02).",
 }
 
 PENDING_REASON = "static check designed (DESIGN.md section 3) but not built yet in this revision; not claimed until it runs"
